@@ -557,12 +557,22 @@ impl Allocator {
             + (self.atom_vec.len() - checkpoint.atoms as usize) * 8
             + (self.pair_vec.len() - checkpoint.pairs as usize) * 8;
         if saved_bytes < MIN_SAVINGS {
+            #[cfg(feature = "verif-hooks")]
+            crate::verif::probe(crate::verif::Probe::Gc {
+                outcome: crate::verif::GcOutcome::AbortedSmallSavings,
+                saved_bytes,
+            });
             return Ok(MaybeRestore::Aborted);
         }
 
         match self.checkpoint_node_status(checkpoint, ret) {
             NodeStatus::Before => {
                 self.restore_transparent_checkpoint(checkpoint);
+                #[cfg(feature = "verif-hooks")]
+                crate::verif::probe(crate::verif::Probe::Gc {
+                    outcome: crate::verif::GcOutcome::NoReplace,
+                    saved_bytes,
+                });
                 Ok(MaybeRestore::NoReplace)
             }
             NodeStatus::AfterOldBytes { start, end } => {
@@ -583,14 +593,29 @@ impl Allocator {
                 let idx = self.atom_vec.len();
                 self.atom_vec.push(AtomBuf { start, end });
                 let new_ret = self.mk_node(ObjectType::Bytes, idx);
+                #[cfg(feature = "verif-hooks")]
+                crate::verif::probe(crate::verif::Probe::Gc {
+                    outcome: crate::verif::GcOutcome::ReplaceOldBytes,
+                    saved_bytes,
+                });
                 Ok(MaybeRestore::Replace(new_ret))
             }
             NodeStatus::AfterNewBytes => {
                 let NodeVisitor::Buffer(buf) = self.node(ret) else {
+                    #[cfg(feature = "verif-hooks")]
+                    crate::verif::probe(crate::verif::Probe::Gc {
+                        outcome: crate::verif::GcOutcome::AbortedPair,
+                        saved_bytes,
+                    });
                     return Ok(MaybeRestore::Aborted);
                 };
 
                 if buf.len() > CLONE_ATOM_LIMIT {
+                    #[cfg(feature = "verif-hooks")]
+                    crate::verif::probe(crate::verif::Probe::Gc {
+                        outcome: crate::verif::GcOutcome::AbortedLargeAtom,
+                        saved_bytes,
+                    });
                     return Ok(MaybeRestore::Aborted);
                 }
                 let mut saved_bytes = [0u8; CLONE_ATOM_LIMIT];
@@ -611,6 +636,11 @@ impl Allocator {
                     ));
                 }
                 self.ghost_heap -= len;
+                #[cfg(feature = "verif-hooks")]
+                crate::verif::probe(crate::verif::Probe::Gc {
+                    outcome: crate::verif::GcOutcome::ReplaceClone,
+                    saved_bytes: len,
+                });
                 Ok(MaybeRestore::Replace(self.new_atom(&saved_bytes[..len])?))
             }
         }
